@@ -7,16 +7,24 @@
      operation on one entity never changes any other entity."
 
   The abstract specification (`Ark.Refine.Spec` = alive handle ↦ component ↦ value, with the
-  specification step `Ark.Refine.specStep`) and the history machine (`Ark.Refine.step`: the
-  model operation `opNewEntity .unsafe_` / `opAdd .unsafe_` / `opRemove .unsafe_` / `opSet` /
-  `opRemoveEntity` / `registerComponent` and the specification step, in lock step from
-  `World.init cap rel`) are defined in Ark/Proofs/Refine.lean together with the inductive
-  invariant; this file states the property theorems.
+  specification step `Ark.Refine.specStep`) and the history machine (`Ark.Refine.step`: the model
+  operation and the specification step, in lock step from `World.init cap rel`) are defined in
+  Ark/Proofs/Refine.lean together with the inductive invariant; this file states the property
+  theorems.  The operations of the machine (`Ark.Refine.Op`, run by `Ark.Refine.exec`):
+
+    reg            `registerComponent`
+    new p / new0   `opNewEntity p` (any access path `p`: `Unsafe`, `Map`, `MapN`) / `opNewEntity0`
+    add p / rem p  `opAdd p` / `opRemove p`
+    xchg p         `opExchange p` (`Unsafe.Exchange` + writes, `ExchangeN.Exchange`)
+    set            `opSet`                    del     `opRemoveEntity`
+    copy           `opCopyEntity`             shrink  `opShrink bounded`
+    reset          `opReset`
 
   Scope (what is a step of the machine, `Ark.Refine.guard`): handles are opaque in the Go API and
-  component IDs are obtained by registration, so an operation on a handle that no `new` returned,
-  or an `add`/`new` naming an unregistered component ID, is not a step.  Everything else is: dead
-  handles, components already present / absent, empty and duplicate lists, a full registry — the
+  component IDs are obtained by registration, so an operation on a handle that no `new`/`copy`
+  returned (in the current epoch, see `reset_effect`), or an `add`/`new`/`xchg` adding an
+  unregistered component ID, is not a step.  Everything else is: dead handles, components already
+  present / absent, "added and removed", empty and duplicate lists, a full registry — the
   specification leaves its state unchanged and the model panics without effect (`rejected`).
 
   Bound: `ops.length < 2^32 − 2` (table IDs and row numbers fit `uint32`; every operation
@@ -115,13 +123,13 @@ theorem rejected (ops : List Op) (op : Op) (hlen : ops.length + 1 < 2 ^ 32 - 2)
       (reach run cap rel ops).w.entities.length + 1 < 2 ^ 32 := by
     have := reach_bounds run cap rel ops (by omega)
     simp only [maxU32]; omega
-  obtain ⟨_, _, _, hrej, _⟩ := step_goal run h hfew.1 hfew.2 op
+  obtain ⟨_, _, _, hrej, _, _⟩ := step_goal run h hfew.1 hfew.2 op
   obtain ⟨k, hk⟩ := hrej hg hnp
   have hspec : ∀ fresh, specStep (reach run cap rel ops).ss fresh op = (reach run cap rel ops).ss :=
     fun fresh => specStep_of_not_pre _ fresh op hnp
   refine ⟨⟨k, hk⟩, hspec, ?_⟩
   rw [reach_snoc, step_of_guard hg, hk]
-  simp only [Res.state, retOf, hspec]
+  simp only [Res.state, retOf, issuedAfter, hspec]
 
 /-- **accepted** — an expressible operation whose precondition holds succeeds -/
 theorem accepted (ops : List Op) (op : Op) (hlen : ops.length + 1 < 2 ^ 32 - 2)
@@ -132,23 +140,31 @@ theorem accepted (ops : List Op) (op : Op) (hlen : ops.length + 1 < 2 ^ 32 - 2)
       (reach run cap rel ops).w.entities.length + 1 < 2 ^ 32 := by
     have := reach_bounds run cap rel ops (by omega)
     simp only [maxU32]; omega
-  obtain ⟨_, _, _, _, hacc⟩ := step_goal run h hfew.1 hfew.2 op
+  obtain ⟨_, _, _, _, hacc, _⟩ := step_goal run h hfew.1 hfew.2 op
   exact hacc hg hp
 
 /-! ## frame -/
 
 /-- **frame** (specification): the step for an operation on `e` (`target`: the handle the
-    operation names, the fresh handle for `new`, nothing for `reg`) changes only `e`'s entry -/
-theorem frame (ss : SS) (fresh : Ent) (op : Op) (x : Ent) (hx : target fresh op ≠ some x) :
-    find (specStep ss fresh op).ents x = find ss.ents x :=
-  specStep_frame ss fresh op x hx
+    operation names, the fresh handle for `new`/`new0`/`copy`, nothing for `reg`/`shrink`) changes
+    only `e`'s entry.  `Reset`, the one operation that is about the whole world, is excluded. -/
+theorem frame (ss : SS) (fresh : Ent) (op : Op) (x : Ent) (hr : op.isReset = false)
+    (hx : target fresh op ≠ some x) : find (specStep ss fresh op).ents x = find ss.ents x :=
+  specStep_frame ss fresh op x hr hx
+
+/-- the exclusion of `Reset` is necessary: it has no target, and it removes every entry -/
+example :
+    target ⟨9, 9⟩ .reset ≠ some ⟨2, 0⟩ ∧
+    find (specStep ⟨[(⟨2, 0⟩, [])], []⟩ ⟨9, 9⟩ .reset).ents ⟨2, 0⟩ = none ∧
+    find (⟨[(⟨2, 0⟩, [])], []⟩ : SS).ents ⟨2, 0⟩ = some [] := by
+  decide +kernel
 
 /-- **frame** (model): an operation on one entity never changes another one — every specified
     entity other than the target has the same component set and the same values before and
     after the operation. -/
 theorem frame_world (ops : List Op) (op : Op) (hlen : ops.length + 1 < 2 ^ 32 - 2) (x : Ent)
     (comps : Comps) (hm : (x, comps) ∈ (reach run cap rel ops).ss.ents)
-    (hx : ∀ fresh, target fresh op ≠ some x) :
+    (hr : op.isReset = false) (hx : ∀ fresh, target fresh op ≠ some x) :
     compsOf (reach run cap rel (ops ++ [op])).w x.id = compsOf (reach run cap rel ops).w x.id ∧
     ∀ c : Comp, valOf (reach run cap rel (ops ++ [op])).w x.id c =
       valOf (reach run cap rel ops).w x.id c := by
@@ -162,7 +178,7 @@ theorem frame_world (ops : List Op) (op : Op) (hlen : ops.length + 1 < 2 ^ 32 - 
     · rw [step_of_guard hg]
       apply find_some_mem
       show find (specStep _ _ op).ents x = some comps
-      rw [frame _ _ op x (hx _)]; exact hf
+      rw [frame _ _ op x hr (hx _)]; exact hf
     · rw [step, if_neg hg]; exact hm
   obtain ⟨_, c1, v1, _, r1⟩ := refines run cap rel ops (by omega) x comps hm
   obtain ⟨_, c2, v2, _, r2⟩ := refines run cap rel (ops ++ [op])
@@ -209,30 +225,30 @@ theorem last_write_wins_set (ops : List Op) (e : Ent) (vals : Comps)
 /-- **last_write_wins (`add`)** — after a valid `add e ids vals`, every added component reads the
     LAST value `vals` gives it, zero if `vals` does not mention it (always zero if zero-size);
     every component the entity had reads the last value written to it, else its old value. -/
-theorem last_write_wins_add (ops : List Op) (e : Ent) (ids : List Comp) (vals : Comps)
+theorem last_write_wins_add (ops : List Op) (p : Path) (e : Ent) (ids : List Comp) (vals : Comps)
     (hlen : ops.length + 1 < 2 ^ 32 - 2) (comps : Comps)
     (hm : (e, comps) ∈ (reach run cap rel ops).ss.ents)
     (hv : ids ≠ [] ∧ ids.Nodup ∧
       ∀ c ∈ ids, c < (reach run cap rel ops).ss.zst.length ∧ c ∉ keys comps) :
-    (∀ c ∈ ids, valOf (reach run cap rel (ops ++ [.add e ids vals])).w e.id c =
+    (∀ c ∈ ids, valOf (reach run cap rel (ops ++ [.add p e ids vals])).w e.id c =
       some (if (reach run cap rel ops).ss.zst.getD c false = true then 0
             else (lastVal vals c).getD 0)) ∧
     (∀ (c : Comp) (v : Val), (c, v) ∈ comps →
-      valOf (reach run cap rel (ops ++ [.add e ids vals])).w e.id c =
+      valOf (reach run cap rel (ops ++ [.add p e ids vals])).w e.id c =
         some (if (reach run cap rel ops).ss.zst.getD c false = true then v
               else (lastVal vals c).getD v)) := by
   obtain ⟨fl, h⟩ := reach_hinv run cap rel ops (by omega)
   obtain ⟨hi, _, _, _, hf, _⟩ := h.live_facts hm
-  have hg : guard (reach run cap rel ops) (.add e ids vals) = true := by
+  have hg : guard (reach run cap rel ops) (.add p e ids vals) = true := by
     simp only [Refine.guard, Bool.and_eq_true, decide_eq_true_eq, List.all_eq_true]
     exact ⟨hi, fun c hc => (hv.2.2 c hc).1⟩
   have hm' : (e, writeComps (reach run cap rel ops).ss.zst vals (comps ++ zeros ids)) ∈
-      (reach run cap rel (ops ++ [.add e ids vals])).ss.ents := by
+      (reach run cap rel (ops ++ [.add p e ids vals])).ss.ents := by
     rw [reach_snoc, step_of_guard hg]
     apply find_some_mem
     simp only [specStep, hf, if_pos hv]
     exact find_upd_self _ hf
-  obtain ⟨_, _, v2, _, _⟩ := refines run cap rel (ops ++ [.add e ids vals])
+  obtain ⟨_, _, v2, _, _⟩ := refines run cap rel (ops ++ [.add p e ids vals])
     (by simp only [List.length_append, List.length_singleton]; omega) e _ hm'
   constructor
   · intro c hc
@@ -252,6 +268,231 @@ theorem lastVal_spec (vals : Comps) (c : Comp) (v : Val) :
       ∃ pre post, vals = pre ++ (c, v) :: post ∧ ∀ cv ∈ post, cv.1 ≠ c :=
   lastVal_eq_some_iff vals c v
 
+/-! ## exchange, copy, creation without components, shrink, reset -/
+
+/-- **exchange** — after a valid `xchg p e add rem vals` (`XchgOK`: not both lists empty, `rem`
+    distinct and present, `add` distinct, registered and absent): the removed components are gone,
+    every added component reads the LAST value `vals` gives it (zero if none, always zero if
+    zero-size), every component that stays reads the last value written to it, else its old value;
+    the component set is the old one without `rem`, with `add`. -/
+theorem last_write_wins_xchg (ops : List Op) (p : Path) (e : Ent) (add rem : List Comp)
+    (vals : Comps) (hlen : ops.length + 1 < 2 ^ 32 - 2) (comps : Comps)
+    (hm : (e, comps) ∈ (reach run cap rel ops).ss.ents)
+    (hv : XchgOK (reach run cap rel ops).ss.zst.length comps add rem) :
+    (∀ c ∈ rem, valOf (reach run cap rel (ops ++ [.xchg p e add rem vals])).w e.id c = none) ∧
+    (∀ c ∈ add, valOf (reach run cap rel (ops ++ [.xchg p e add rem vals])).w e.id c =
+      some (if (reach run cap rel ops).ss.zst.getD c false = true then 0
+            else (lastVal vals c).getD 0)) ∧
+    (∀ (c : Comp) (v : Val), (c, v) ∈ comps → c ∉ rem →
+      valOf (reach run cap rel (ops ++ [.xchg p e add rem vals])).w e.id c =
+        some (if (reach run cap rel ops).ss.zst.getD c false = true then v
+              else (lastVal vals c).getD v)) ∧
+    compsOf (reach run cap rel (ops ++ [.xchg p e add rem vals])).w e.id =
+      some (sortedIds (reach run cap rel (ops ++ [.xchg p e add rem vals])).w.kinds.length
+        (keys (comps.filter fun cv => decide (cv.1 ∉ rem)) ++ add)) := by
+  obtain ⟨fl, h⟩ := reach_hinv run cap rel ops (by omega)
+  obtain ⟨hi, _, _, _, hf, _⟩ := h.live_facts hm
+  have hg : guard (reach run cap rel ops) (.xchg p e add rem vals) = true := by
+    simp only [Refine.guard, Bool.and_eq_true, decide_eq_true_eq, List.all_eq_true]
+    exact ⟨hi, fun c hc => (hv.2.2.2.2 c hc).1⟩
+  have hm' : (e, writeComps (reach run cap rel ops).ss.zst vals
+      ((comps.filter fun cv => decide (cv.1 ∉ rem)) ++ zeros add)) ∈
+      (reach run cap rel (ops ++ [.xchg p e add rem vals])).ss.ents := by
+    rw [reach_snoc, step_of_guard hg]
+    apply find_some_mem
+    simp only [specStep, hf, if_pos hv]
+    exact find_upd_self _ hf
+  have hlen' : (ops ++ [Op.xchg p e add rem vals]).length < 2 ^ 32 - 2 := by
+    simp only [List.length_append, List.length_singleton]; omega
+  obtain ⟨_, c2, v2, _, _⟩ := refines run cap rel _ hlen' e _ hm'
+  have hk : keys (writeComps (reach run cap rel ops).ss.zst vals
+      ((comps.filter fun cv => decide (cv.1 ∉ rem)) ++ zeros add)) =
+      keys (comps.filter fun cv => decide (cv.1 ∉ rem)) ++ add := by
+    rw [keys_writeComps, keys_append, keys_zeros]
+  refine ⟨?_, ?_, ?_, by rw [c2, hk]⟩
+  · intro c hc
+    apply refines_absent run cap rel _ hlen' e _ hm'
+    rw [hk, List.mem_append]
+    rintro (h1 | h1)
+    · exact (mem_keys_filter.mp h1).2 hc
+    · exact (hv.2.2.2.2 c h1).2 (hv.2.2.1 c hc)
+  · intro c hc
+    have := v2 (c, if (reach run cap rel ops).ss.zst.getD c false = true then 0
+        else applyVals 0 vals c)
+      (List.mem_map.mpr ⟨(c, 0), List.mem_append_right _ (List.mem_map.mpr ⟨c, hc, rfl⟩), rfl⟩)
+    rw [this, applyVals_eq_lastVal]
+  · intro c v hc hnr
+    have := v2 (c, if (reach run cap rel ops).ss.zst.getD c false = true then v
+        else applyVals v vals c)
+      (List.mem_map.mpr ⟨(c, v), List.mem_append_left _
+        (List.mem_filter.mpr ⟨hc, by simpa using hnr⟩), rfl⟩)
+    rw [this, applyVals_eq_lastVal]
+
+/-- **copy** — a valid `copy e` returns a handle `e'` that was never returned before; the
+    specification gets the entry `(e', comps)` with the entry `comps` of `e`; in the world after
+    the call `e'` has the component set of `e` and, for every component, the value `e` has. -/
+theorem copy_effect (ops : List Op) (e : Ent) (hlen : ops.length + 1 < 2 ^ 32 - 2) (comps : Comps)
+    (hm : (e, comps) ∈ (reach run cap rel ops).ss.ents) :
+    ∃ e' : Ent, e' ∉ (reach run cap rel ops).issued ∧
+      (reach run cap rel (ops ++ [.copy e])).issued = e' :: (reach run cap rel ops).issued ∧
+      (reach run cap rel (ops ++ [.copy e])).ss.ents = (e', comps) :: (reach run cap rel ops).ss.ents ∧
+      (reach run cap rel (ops ++ [.copy e])).w.alive e' = true ∧
+      compsOf (reach run cap rel (ops ++ [.copy e])).w e'.id =
+        compsOf (reach run cap rel (ops ++ [.copy e])).w e.id ∧
+      ∀ c : Comp, valOf (reach run cap rel (ops ++ [.copy e])).w e'.id c =
+        valOf (reach run cap rel (ops ++ [.copy e])).w e.id c := by
+  obtain ⟨fl, h⟩ := reach_hinv run cap rel ops (by omega)
+  obtain ⟨hi, _, _, _, hf, _⟩ := h.live_facts hm
+  have hg : guard (reach run cap rel ops) (.copy e) = true := by
+    simp only [Refine.guard, decide_eq_true_eq]; exact hi
+  obtain ⟨r, w', hex⟩ := accepted run cap rel ops (.copy e) hlen hg ⟨comps, hf⟩
+  -- the call returns a handle
+  obtain ⟨e', hr⟩ : ∃ e', r = some e' := by
+    simp only [exec] at hex
+    cases hc : opCopyEntity run e (reach run cap rel ops).w with
+    | panic k w1 => rw [hc] at hex; cases hex
+    | ok e1 w1 =>
+      rw [hc] at hex
+      injection hex with h1 _
+      exact ⟨e1, h1.symm⟩
+  subst hr
+  have hstep : reach run cap rel (ops ++ [.copy e]) =
+      ⟨w', e' :: (reach run cap rel ops).issued,
+        ⟨(e', comps) :: (reach run cap rel ops).ss.ents, (reach run cap rel ops).ss.zst⟩⟩ := by
+    rw [reach_snoc, step_of_guard_nr hg rfl, hex]
+    simp only [Res.state, retOf, specStep, hf, Option.getD_some]
+  have hlen' : (ops ++ [Op.copy e]).length < 2 ^ 32 - 2 := by
+    simp only [List.length_append, List.length_singleton]; omega
+  have hnd := (spec_handles_nodup run cap rel (ops ++ [.copy e]) hlen').2.2
+  have hm1 : (e', comps) ∈ (reach run cap rel (ops ++ [.copy e])).ss.ents := by
+    rw [hstep]; exact List.mem_cons_self
+  have hm2 : (e, comps) ∈ (reach run cap rel (ops ++ [.copy e])).ss.ents := by
+    rw [hstep]; exact List.mem_cons_of_mem _ hm
+  obtain ⟨a1, c1, v1, _, _⟩ := refines run cap rel _ hlen' e' comps hm1
+  obtain ⟨_, c2, v2, _, _⟩ := refines run cap rel _ hlen' e comps hm2
+  refine ⟨e', ?_, by rw [hstep], by rw [hstep], a1, by rw [c1, c2], fun c => ?_⟩
+  · rw [hstep] at hnd
+    exact (List.nodup_cons.mp hnd).1
+  · by_cases hc : c ∈ keys comps
+    · obtain ⟨cv, hcv, rfl⟩ := List.mem_map.mp hc
+      rw [v1 cv hcv, v2 cv hcv]
+    · rw [refines_absent run cap rel _ hlen' e' comps hm1 c hc,
+        refines_absent run cap rel _ hlen' e comps hm2 c hc]
+
+/-- **creation without components** — `new0` always succeeds and returns a handle `e'` that was
+    never returned before; the new entity is alive and has no component -/
+theorem new0_effect (ops : List Op) (hlen : ops.length + 1 < 2 ^ 32 - 2) :
+    ∃ e' : Ent, e' ∉ (reach run cap rel ops).issued ∧
+      (reach run cap rel (ops ++ [.new0])).issued = e' :: (reach run cap rel ops).issued ∧
+      (reach run cap rel (ops ++ [.new0])).ss.ents = (e', []) :: (reach run cap rel ops).ss.ents ∧
+      (reach run cap rel (ops ++ [.new0])).w.alive e' = true ∧
+      compsOf (reach run cap rel (ops ++ [.new0])).w e'.id = some [] := by
+  have hg : guard (reach run cap rel ops) .new0 = true := rfl
+  obtain ⟨r, w', hex⟩ := accepted run cap rel ops .new0 hlen hg trivial
+  obtain ⟨e', hr⟩ : ∃ e', r = some e' := by
+    simp only [exec] at hex
+    cases hc : opNewEntity0 run (reach run cap rel ops).w with
+    | panic k w1 => rw [hc] at hex; cases hex
+    | ok e1 w1 =>
+      rw [hc] at hex
+      injection hex with h1 _
+      exact ⟨e1, h1.symm⟩
+  subst hr
+  have hstep : reach run cap rel (ops ++ [.new0]) =
+      ⟨w', e' :: (reach run cap rel ops).issued,
+        ⟨(e', []) :: (reach run cap rel ops).ss.ents, (reach run cap rel ops).ss.zst⟩⟩ := by
+    rw [reach_snoc, step_of_guard_nr hg rfl, hex]
+    simp only [Res.state, retOf, specStep, Option.getD_some]
+  have hlen' : (ops ++ [Op.new0]).length < 2 ^ 32 - 2 := by
+    simp only [List.length_append, List.length_singleton]; omega
+  have hnd := (spec_handles_nodup run cap rel (ops ++ [.new0]) hlen').2.2
+  have hm1 : (e', []) ∈ (reach run cap rel (ops ++ [.new0])).ss.ents := by
+    rw [hstep]; exact List.mem_cons_self
+  obtain ⟨a1, c1, _⟩ := refines run cap rel _ hlen' e' [] hm1
+  refine ⟨e', ?_, by rw [hstep], by rw [hstep], a1, by rw [c1]; simp [sortedIds, keys]⟩
+  rw [hstep] at hnd
+  exact (List.nodup_cons.mp hnd).1
+
+/-- **Shrink is invisible** — `shrink` (bounded or not) always succeeds, leaves the specification
+    and the set of handles unchanged, and every specified entity keeps its component set and all
+    its values (this is `frame_world` for an operation without a target) -/
+theorem shrink_invisible (ops : List Op) (bounded : Bool) (hlen : ops.length + 1 < 2 ^ 32 - 2) :
+    (reach run cap rel (ops ++ [.shrink bounded])).ss = (reach run cap rel ops).ss ∧
+    (reach run cap rel (ops ++ [.shrink bounded])).issued = (reach run cap rel ops).issued ∧
+    ∀ (x : Ent) (comps : Comps), (x, comps) ∈ (reach run cap rel ops).ss.ents →
+      compsOf (reach run cap rel (ops ++ [.shrink bounded])).w x.id =
+        compsOf (reach run cap rel ops).w x.id ∧
+      ∀ c : Comp, valOf (reach run cap rel (ops ++ [.shrink bounded])).w x.id c =
+        valOf (reach run cap rel ops).w x.id c := by
+  have hg : guard (reach run cap rel ops) (.shrink bounded) = true := rfl
+  obtain ⟨r, w', hex⟩ := accepted run cap rel ops (.shrink bounded) hlen hg trivial
+  have hr : r = none := by
+    simp only [exec] at hex
+    cases hc : opShrink bounded (reach run cap rel ops).w with
+    | panic k w1 => rw [hc] at hex; cases hex
+    | ok e1 w1 =>
+      rw [hc] at hex
+      injection hex with h1 _
+      exact h1.symm
+  subst hr
+  have hstep : reach run cap rel (ops ++ [.shrink bounded]) =
+      ⟨w', (reach run cap rel ops).issued, (reach run cap rel ops).ss⟩ := by
+    rw [reach_snoc, step_of_guard_nr hg rfl, hex]
+    simp only [Res.state, retOf, specStep]
+  refine ⟨by rw [hstep], by rw [hstep], fun x comps hm => ?_⟩
+  exact frame_world run cap rel ops (.shrink bounded) hlen x comps hm rfl
+    (fun _ hh => by cases hh)
+
+/-- the generation of an issued handle is at most the number of operations so far, so it is never
+    the sentinel generation `maxU32` of reserved and invalidated pool slots -/
+theorem issued_gen_bound (ops : List Op) (hlen : ops.length < 2 ^ 32 - 2) :
+    ∀ h ∈ (reach run cap rel ops).issued, h.gen ≤ ops.length ∧ h.gen ≠ maxU32 :=
+  (reach_genBound run cap rel ops hlen).2
+
+/-- **Reset** — `reset` always succeeds; afterwards the specification has no entity, the registry
+    is kept, no ID is indexed to a table any more, and the epoch of handles ends: nothing counts
+    as issued, and every handle issued before is dead.  (`Reset` re-issues the very same handles
+    — ID and generation — to later `new`s by design, which is why the ghost history starts
+    afresh.  `Reset` writes the sentinel generation `maxU32` into the retained memory; a
+    generation grows by one per `RemoveEntity` of its slot, so within the history bound no issued
+    handle carries it: `issued_gen_bound`.) -/
+theorem reset_effect (ops : List Op) (hlen : ops.length + 1 < 2 ^ 32 - 2) :
+    (reach run cap rel (ops ++ [.reset])).ss.ents = [] ∧
+    (reach run cap rel (ops ++ [.reset])).ss.zst = (reach run cap rel ops).ss.zst ∧
+    (reach run cap rel (ops ++ [.reset])).issued = [] ∧
+    (reach run cap rel (ops ++ [.reset])).w.kinds = (reach run cap rel ops).w.kinds ∧
+    (∀ i : Nat, compsOf (reach run cap rel (ops ++ [.reset])).w i = none ∧
+      ∀ c : Comp, valOf (reach run cap rel (ops ++ [.reset])).w i c = none) ∧
+    ∀ h ∈ (reach run cap rel ops).issued,
+      (reach run cap rel (ops ++ [.reset])).w.alive h = false := by
+  obtain ⟨fl, hinv⟩ := reach_hinv run cap rel ops (by omega)
+  have hg : guard (reach run cap rel ops) .reset = true := rfl
+  obtain ⟨w', hop, post⟩ := opReset_spec hinv.cinv hinv.unlocked
+  have hex : exec run (reach run cap rel ops).w .reset = .ok none w' := by simp only [exec, hop]
+  have hstep : reach run cap rel (ops ++ [.reset]) =
+      ⟨w', [], ⟨[], (reach run cap rel ops).ss.zst⟩⟩ := by
+    rw [reach_snoc, step_of_guard hg, hex]
+    simp only [Res.state, issuedAfter, Op.isReset, if_true, specStep]
+  refine ⟨by rw [hstep], by rw [hstep], by rw [hstep], by rw [hstep]; exact post.kinds,
+    by rw [hstep]; exact post.unindexed, fun h hi => ?_⟩
+  rw [hstep]
+  obtain ⟨h2, sl, hsl, _, _⟩ := hinv.ginv.issued_bound h hi
+  exact post.dead h h2 (List.getElem?_eq_some_iff.mp hsl).1
+    ((reach_genBound run cap rel ops (by omega)).2 h hi).2
+
+/-! ## through any access path -/
+
+/-- **any access path** — in every reachable state an operation gives the same result (world,
+    returned handle, or panic) through `Unsafe…`, `Map…` and `MapN…` (`Op.withPath p` replaces the
+    access path of `new`/`add`/`rem`/`xchg`), and the machine takes the same step: all the
+    theorems of this file hold whichever path each operation of the history takes. -/
+theorem any_access_path (ops : List Op) (op : Op) (p : Path) (hlen : ops.length < 2 ^ 32 - 2) :
+    exec run (reach run cap rel ops).w (op.withPath p) = exec run (reach run cap rel ops).w op ∧
+    reach run cap rel (ops ++ [op.withPath p]) = reach run cap rel (ops ++ [op]) := by
+  obtain ⟨fl, h⟩ := reach_hinv run cap rel ops hlen
+  exact ⟨exec_path_indep run _ h.unlocked h.cinv.noObs p op,
+    by rw [reach_snoc, reach_snoc, step_path_indep run h p op]⟩
+
 /-! ## non-vacuity: a concrete history -/
 
 /-- three component types (ID 1 zero-size); entity `2.0` with `{0}` (value 7), entity `3.0` with
@@ -260,12 +501,12 @@ theorem lastVal_spec (vals : Comps) (c : Comp) (v : Val) :
     third entity `{0, 2}`, which recycles ID 3 with generation 1. -/
 def demoOps : List Op :=
   [.reg 8 false, .reg 0 true, .reg 8 false,
-   .new [0] [(0, 7)], .new [1, 2] [(2, 9)],
-   .add ⟨2, 0⟩ [2, 1] [(2, 5), (2, 6), (1, 3)],
-   .rem ⟨2, 0⟩ [0],
+   .new .unsafe_ [0] [(0, 7)], .new .typed [1, 2] [(2, 9)],
+   .add .map1 ⟨2, 0⟩ [2, 1] [(2, 5), (2, 6), (1, 3)],
+   .rem .typed ⟨2, 0⟩ [0],
    .set ⟨2, 0⟩ [(2, 11)],
    .del ⟨3, 0⟩,
-   .new [0, 2] [(0, 1)]]
+   .new .map1 [0, 2] [(0, 1)]]
 
 /-- the model agrees with the specification entry by entry (decidable form of `refines`) -/
 def agrees (s : St) : Bool :=
@@ -314,19 +555,140 @@ example :
     component 2 absent, a component listed twice, `Set` of an absent component, a dead handle —
     the world comes back unchanged and the machine state does not move -/
 example :
-    (step noProbe (reach noProbe 4 1 (demoOps.take 5)) (.add ⟨2, 0⟩ [0] [])).ss.ents =
+    (step noProbe (reach noProbe 4 1 (demoOps.take 5)) (.add .unsafe_ ⟨2, 0⟩ [0] [])).ss.ents =
       (reach noProbe 4 1 (demoOps.take 5)).ss.ents ∧
-    (step noProbe (reach noProbe 4 1 (demoOps.take 5)) (.rem ⟨2, 0⟩ [2])).ss.ents =
+    (step noProbe (reach noProbe 4 1 (demoOps.take 5)) (.rem .unsafe_ ⟨2, 0⟩ [2])).ss.ents =
       (reach noProbe 4 1 (demoOps.take 5)).ss.ents ∧
-    (step noProbe (reach noProbe 4 1 (demoOps.take 5)) (.add ⟨2, 0⟩ [1, 1] [])).ss.ents =
+    (step noProbe (reach noProbe 4 1 (demoOps.take 5)) (.add .unsafe_ ⟨2, 0⟩ [1, 1] [])).ss.ents =
       (reach noProbe 4 1 (demoOps.take 5)).ss.ents ∧
     (step noProbe (reach noProbe 4 1 (demoOps.take 5)) (.set ⟨2, 0⟩ [(1, 4)])).ss.ents =
       (reach noProbe 4 1 (demoOps.take 5)).ss.ents ∧
-    retOf (exec noProbe (reach noProbe 4 1 (demoOps.take 5)).w (.add ⟨2, 0⟩ [0] [])) = none ∧
-    (exec noProbe (reach noProbe 4 1 (demoOps.take 5)).w (.add ⟨2, 0⟩ [0] [])).state.entities =
+    retOf (exec noProbe (reach noProbe 4 1 (demoOps.take 5)).w (.add .unsafe_ ⟨2, 0⟩ [0] [])) = none ∧
+    (exec noProbe (reach noProbe 4 1 (demoOps.take 5)).w (.add .unsafe_ ⟨2, 0⟩ [0] [])).state.entities =
       (reach noProbe 4 1 (demoOps.take 5)).w.entities ∧
     (exec noProbe (reach noProbe 4 1 demoOps).w (.set ⟨3, 0⟩ [])).state.entities =
       (reach noProbe 4 1 demoOps).w.entities := by
+  decide +kernel
+
+/-! ### a second history: `new0`, `xchg`, `copy`, `shrink`, `reset` -/
+
+/-- entity `2.0` with `{0}` (value 7); entity `3.0` without components (`new0`); exchange on `2.0`:
+    remove 0, add `{2, 1}`, writing 2 := 5 (the write to the removed component 0 has no effect);
+    exchange on `3.0` through the typed path: add `{0}` := 4; copy `2.0` (→ `4.0`); set component 2
+    of `2.0` to 8 (the copy keeps 5); four more entities in the table of `{0}` (its capacity grows
+    to 8), removed again -/
+def demoOps2a : List Op :=
+  [.reg 8 false, .reg 0 true, .reg 8 false,
+   .new .unsafe_ [0] [(0, 7)], .new0,
+   .xchg .unsafe_ ⟨2, 0⟩ [2, 1] [0] [(2, 5), (0, 9)],
+   .xchg .typed ⟨3, 0⟩ [0] [] [(0, 4)],
+   .copy ⟨2, 0⟩, .set ⟨2, 0⟩ [(2, 8)],
+   .new .map1 [0] [(0, 1)], .new .map1 [0] [(0, 2)], .new .map1 [0] [(0, 3)], .new .map1 [0] [(0, 5)],
+   .del ⟨5, 0⟩, .del ⟨6, 0⟩, .del ⟨7, 0⟩, .del ⟨8, 0⟩]
+
+/-- … then a bounded `Shrink` (the table of `{0}` goes back to capacity 4), `3.0` removed, `4.0`
+    copied (the copy recycles ID 3 with generation 1) -/
+def demoOps2 : List Op := demoOps2a ++ [.shrink true, .del ⟨3, 0⟩, .copy ⟨4, 0⟩]
+
+/-- … then `Reset` and two creations: the handles `2.0` and `3.0` are issued again -/
+def demoOps3 : List Op := demoOps2 ++ [.reset, .new .typed [2] [(2, 1)], .new0]
+
+/-- the panic class of a call, if it panicked -/
+def panicOf : Res World (Option Ent) → Option PanicKind
+  | .ok _ _ => none
+  | .panic k _ => some k
+
+/-- the hypotheses of `last_write_wins_xchg` and `copy_effect` are satisfiable: before the first
+    exchange `2.0` is specified with `{0}` and `XchgOK` holds for "remove 0, add 2 and 1"; it does
+    not hold for a component both removed and added, nor when nothing is exchanged -/
+example :
+    (⟨2, 0⟩, [(0, 7)]) ∈ (reach noProbe 4 1 (demoOps2a.take 5)).ss.ents ∧
+    XchgOK (reach noProbe 4 1 (demoOps2a.take 5)).ss.zst.length [(0, 7)] [2, 1] [0] ∧
+    ¬ XchgOK (reach noProbe 4 1 (demoOps2a.take 5)).ss.zst.length [(0, 7)] [0] [0] ∧
+    ¬ XchgOK (reach noProbe 4 1 (demoOps2a.take 5)).ss.zst.length [(0, 7)] [] [] ∧
+    (⟨2, 0⟩, [(2, 5), (1, 0)]) ∈ (reach noProbe 4 1 (demoOps2a.take 7)).ss.ents := by
+  decide +kernel
+
+/-- after the exchanges, the copy and the `set`: specification and model -/
+example :
+    (reach noProbe 4 1 (demoOps2a.take 9)).ss.ents =
+      [(⟨4, 0⟩, [(2, 5), (1, 0)]), (⟨3, 0⟩, [(0, 4)]), (⟨2, 0⟩, [(2, 8), (1, 0)])] ∧
+    agrees (reach noProbe 4 1 (demoOps2a.take 9)) = true ∧
+    (compsOf (reach noProbe 4 1 (demoOps2a.take 9)).w 2,
+      valOf (reach noProbe 4 1 (demoOps2a.take 9)).w 2 0,
+      valOf (reach noProbe 4 1 (demoOps2a.take 9)).w 2 2,
+      valOf (reach noProbe 4 1 (demoOps2a.take 9)).w 4 2,
+      compsOf (reach noProbe 4 1 (demoOps2a.take 9)).w 3) =
+      (some [1, 2], none, some 8, some 5, some [0]) := by
+  decide +kernel
+
+/-- `Shrink` has work to do (the table of `{0}` has capacity 8 for one row) and is invisible -/
+example :
+    ((reach noProbe 4 1 demoOps2a).w.tables.map fun T => (T.ids, T.len, T.cap)) =
+      [([], 0, 4), ([0], 1, 8), ([1, 2], 2, 4)] ∧
+    ((reach noProbe 4 1 (demoOps2a ++ [.shrink true])).w.tables.map fun T => (T.ids, T.len, T.cap)) =
+      [([], 0, 4), ([0], 1, 4), ([1, 2], 2, 4)] ∧
+    (reach noProbe 4 1 (demoOps2a ++ [.shrink true])).ss.ents = (reach noProbe 4 1 demoOps2a).ss.ents ∧
+    agrees (reach noProbe 4 1 (demoOps2a ++ [.shrink true])) = true := by
+  decide +kernel
+
+/-- the whole second history -/
+example :
+    (reach noProbe 4 1 demoOps2).ss.ents =
+      [(⟨3, 1⟩, [(2, 5), (1, 0)]), (⟨4, 0⟩, [(2, 5), (1, 0)]), (⟨2, 0⟩, [(2, 8), (1, 0)])] ∧
+    agrees (reach noProbe 4 1 demoOps2) = true ∧
+    (reach noProbe 4 1 demoOps2).issued =
+      [⟨3, 1⟩, ⟨8, 0⟩, ⟨7, 0⟩, ⟨6, 0⟩, ⟨5, 0⟩, ⟨4, 0⟩, ⟨3, 0⟩, ⟨2, 0⟩] ∧
+    (reach noProbe 4 1 demoOps2).issued.map (reach noProbe 4 1 demoOps2).w.alive =
+      [true, false, false, false, false, true, false, true] := by
+  decide +kernel
+
+/-- rejected exchanges in the state after the `set` (`2.0` has `{1, 2}`): a component both
+    removed and added, a component already present, an absent component removed, both lists
+    empty, a component added twice, a dead handle through either path — the world comes back
+    unchanged and the specification does not move -/
+example :
+    [panicOf (exec noProbe (reach noProbe 4 1 (demoOps2a.take 9)).w (.xchg .unsafe_ ⟨2, 0⟩ [2] [2] [])),
+     panicOf (exec noProbe (reach noProbe 4 1 (demoOps2a.take 9)).w (.xchg .unsafe_ ⟨2, 0⟩ [1] [] [])),
+     panicOf (exec noProbe (reach noProbe 4 1 (demoOps2a.take 9)).w (.xchg .typed ⟨2, 0⟩ [] [0] [])),
+     panicOf (exec noProbe (reach noProbe 4 1 (demoOps2a.take 9)).w (.xchg .unsafe_ ⟨2, 0⟩ [] [] [])),
+     panicOf (exec noProbe (reach noProbe 4 1 (demoOps2a.take 9)).w (.xchg .unsafe_ ⟨2, 0⟩ [0, 0] [] [])),
+     panicOf (exec noProbe (reach noProbe 4 1 demoOps2).w (.xchg .unsafe_ ⟨3, 0⟩ [1] [] [])),
+     panicOf (exec noProbe (reach noProbe 4 1 demoOps2).w (.xchg .typed ⟨3, 0⟩ [1] [] [])),
+     panicOf (exec noProbe (reach noProbe 4 1 demoOps2).w (.copy ⟨3, 0⟩))] =
+      [some .addedAndRemoved, some .alreadyHas, some .missing, some .noComponents, some .alreadyHas,
+       some .deadEntity, some .deadEntity, some .deadEntity] ∧
+    (exec noProbe (reach noProbe 4 1 (demoOps2a.take 9)).w (.xchg .unsafe_ ⟨2, 0⟩ [2] [2] [])).state.tables =
+      (reach noProbe 4 1 (demoOps2a.take 9)).w.tables ∧
+    (exec noProbe (reach noProbe 4 1 (demoOps2a.take 9)).w (.xchg .unsafe_ ⟨2, 0⟩ [2] [2] [])).state.entities =
+      (reach noProbe 4 1 (demoOps2a.take 9)).w.entities ∧
+    (step noProbe (reach noProbe 4 1 (demoOps2a.take 9)) (.xchg .unsafe_ ⟨2, 0⟩ [2] [2] [])).ss.ents =
+      (reach noProbe 4 1 (demoOps2a.take 9)).ss.ents := by
+  decide +kernel
+
+/-- `Reset`: the specification is empty, nothing counts as issued, the old handles are dead; the
+    next two creations return `2.0` and `3.0` again, and the model agrees with the specification -/
+example :
+    (reach noProbe 4 1 (demoOps2 ++ [.reset])).ss.ents = [] ∧
+    (reach noProbe 4 1 (demoOps2 ++ [.reset])).issued = [] ∧
+    (reach noProbe 4 1 demoOps2).issued.map (reach noProbe 4 1 (demoOps2 ++ [.reset])).w.alive =
+      [false, false, false, false, false, false, false, false] ∧
+    (reach noProbe 4 1 demoOps3).issued = [⟨3, 0⟩, ⟨2, 0⟩] ∧
+    (reach noProbe 4 1 demoOps3).ss.ents = [(⟨3, 0⟩, []), (⟨2, 0⟩, [(2, 1)])] ∧
+    agrees (reach noProbe 4 1 demoOps3) = true ∧
+    (compsOf (reach noProbe 4 1 demoOps3).w 2, valOf (reach noProbe 4 1 demoOps3).w 2 2,
+      compsOf (reach noProbe 4 1 demoOps3).w 3, compsOf (reach noProbe 4 1 demoOps3).w 4) =
+      (some [2], some 1, some [], none) := by
+  decide +kernel
+
+/-- **finding**: `Reset` keeps the memory behind the pool slice (`Pool.stale`), so the invariant
+    of the fragment cannot demand `pool.stale = []` (as `CInv` did before `reset` became a step): it
+    only holds invalidated handles (`CInv.stale`), and `Alive` of a handle whose ID lies inside
+    the slice does not read it -/
+example :
+    (reach noProbe 4 1 (demoOps2 ++ [.reset])).w.pool.stale.length = 7 ∧
+    ((reach noProbe 4 1 (demoOps2 ++ [.reset])).w.pool.stale.all fun e => e.gen == maxU32) = true ∧
+    (reach noProbe 4 1 demoOps3).w.pool.stale.length = 5 := by
   decide +kernel
 
 end Ark.Props.C01Refine
